@@ -589,7 +589,7 @@ def gen_cases(ck):
     rng = Rng(ck.seed)
     quick = ck.tier == "quick"
     cases = boundary_cases()
-    n = 3600 if quick else 60000
+    n = 3600 if quick else 30000
     fams = [("overlap", sys_overlap), ("struct", sys_struct), ("selector", sys_selector)]
     for k in range(n):
         fam, mk = fams[k % 3]
